@@ -358,6 +358,31 @@ def banner(P, R):
     R.floor('C09.WIRE.1', 3)
 
 
+def _configured_word(P, rec):
+    """The functions that copy a text into <rec>.name are called only with a text known to be non-empty and free of
+    blanks (a test of its first character against NUL and a strpbrk / strchr search for a blank that found nothing)."""
+    n = 0
+    for f in P.fns.values():
+        for s in f.calls():
+            if s.ev.get('callee') not in ('strcpy', 'memcpy', 'strncpy', 'strlcpy') or len(s.ev['args']) < 2:
+                continue
+            d, src = s.ev['args'][0], s.ev['args'][1]
+            if not (isinstance(d, dict) and d.get('k') == 'mem' and d.get('field') == 'name' and d.get('rec') == rec and is_var(src) and src['name'] in f.params):
+                continue
+            pi = f.params.index(src['name'])
+            for c in P.callers(f, may=True):
+                if pi >= len(c.ev['args']):
+                    continue
+                a = c.ev['args'][pi]
+                gs = c.fn.guards(c.bid)
+                nonempty = any(isinstance(g[0], dict) and g[0].get('k') == 'idx' and sx(g[0].get('base')) == sx(a) and const_of(g[0].get('index')) == 0 and g[1] == '!=' and const_of(g[2]) == 0 for g in gs)
+                noblank = any(isinstance(g[0], dict) and g[0].get('k') == 'callref' and g[0].get('callee') in ('strpbrk', 'strchr', 'strcspn') and g[0]['args'] and sx(g[0]['args'][0]) == sx(a) and g[1] == '==' and const_of(g[2]) == 0 for g in gs)
+                n += 1
+                if not (nonempty and noblank):
+                    return False, 'the call at %s passes %s unchecked' % (c.loc, sx(a))
+    return (n > 0), ('%d call(s) of the name-storing function, all behind the word test' % n if n else 'no function stores that name')
+
+
 def word_parameters(P, R, rule='C09.FMT.3'):
     """A message whose parameter is a bare word ("U <name>", "N <host>", "M <modes>" - a `%s` not introduced by a colon)
     is only well formed when the word is there: the functions that send such a message with one of their own parameters
@@ -389,6 +414,11 @@ def word_parameters(P, R, rule='C09.FMT.3'):
                     ok = True       # passed on: judged at that function's own callers
                     if s.fn.key not in wrappers:
                         wrappers.setdefault(s.fn.key, [])
+                elif isinstance(a, dict) and a.get('k') == 'mem' and a.get('field') == 'name' and a.get('rec') and a.get('rec') != core.REQ_REC:
+                    # a configured name: it was checked to be one word where it was taken from the configuration
+                    okw, whyw = _configured_word(P, a.get('rec'))
+                    R.ob(rule, okw, s, 'the configured name sent as a word of the "%s" message was checked to be a single non-empty word when it was configured (%s)' % (letter, whyw), key='word-param-configured:%s' % f.name)
+                    continue
                 elif not any(isinstance(x, dict) and x.get('k') == 'mem' and x.get('rec') == core.REQ_REC for x in walk(a)):
                     # not client data: a configured name, a tag the writer formatted into a local buffer
                     R.ob(rule, True, s, 'the word sent as the parameter of the "%s" message is the daemon\'s own text (%s)' % (letter, why), key='word-param-own:%s' % f.name, nontrivial=False)
